@@ -262,10 +262,11 @@ func (cs *Contracts) parseFile(path, text string) error {
 		where := fmt.Sprintf("%s:%d", path, i)
 		switch kw {
 		case "func":
-			cur = &Contract{Func: rest, File: path, Loops: map[int]*LoopSpec{}, Opts: map[string]string{}}
-			if _, dup := cs.ByFunc[rest]; dup {
-				return fmt.Errorf("%s: duplicate contract for %s", where, rest)
+			if prev, dup := cs.ByFunc[rest]; dup {
+				cur = prev // a later block for the same function adds clauses
+				continue
 			}
+			cur = &Contract{Func: rest, File: path, Loops: map[int]*LoopSpec{}, Opts: map[string]string{}}
 			cs.ByFunc[rest] = cur
 			continue
 		case "funcs":
